@@ -3,7 +3,7 @@
    (any nesting depth, any operator mix, all int64 values, strings as data); (2) integer literals keep their
    value through printing and re-reading; (3) the reference arithmetic is Go's int64 arithmetic;
    (4) straight-line programs of assignments and prints (C01_straight_line_preserved); (5) programs with conditionals at any nesting depth (C01_conditionals_preserved); (6) terminating programs with loops, break
-   and continue (C01_loops_preserved); (7) the statement structure of the script (C16/C04 theorems).  Functions and panic are NOT covered by a theorem; it is decided on
+   and continue (C01_loops_preserved); (7) the statement structure of the script (C16/C04 theorems).  Slices, multi-value calls and panic are NOT covered by a theorem; they are decided on
    generated programs by running the implementation's script under /bin/bash against Sem/Src.v. *)
 From Verif Require Import Base.Bytestr Base.DecFacts Front.Ast Front.FrontModel Back.BashLines Back.Transpile Back.BashConv
   Back.BashFacts Sem.Src Sem.SrcFacts Sem.BashSem Sem.ExprPreserve Sem.Words Sem.StmtPreserve Sem.FlatSem Sem.IfPreserve Sem.FlatLoop Sem.LoopPreserve.
@@ -57,10 +57,16 @@ Print Assumptions C01_conditionals_preserved.
    model with loops of Sem/FlatLoop.v (a loop is entered by pushing the list behind do; done and continue go back to it,
    break and a failing exit test go behind the matching done; the first-iteration flag guards the increment), print what
    the source prints and leave the environment representing the final source environment.  fresh_flags: no variable of
-   the program is spelled like a loop flag _fv<n> (C10).  call and pos (what a function call does, the positional
-   parameters) play no role for these function-free programs: the statement holds for every choice. *)
-Theorem C01_loops_preserved : forall call pos XS sg body sg' out s u s' b,
-  J XS (Prog body) sg sg' out SN -> go_fix body s = TOk u s' -> frag2_all body = true -> env_ok sg -> ctx_ok XS sg b s -> fresh_flags XS s ->
+   the program is spelled like a loop flag _fv<n>, a return register _rv<n> or a mangled local f<n>_x of a function that may
+   run (C10); loops opened before this code have numbers below klo.  Calls x = f(..), x := f(..) and f(..) with call-free
+   arguments are statements of these programs too: scall is what a call does in the source, call what the script's
+   function does (with pos its positional parameters), and call_refines says the latter refines the former - results in
+   the return registers, the caller's variables still represented, protected flags and the names of later functions
+   unwritten.  Sem/CallPreserve.v discharges call_refines for function definitions. *)
+Theorem C01_loops_preserved : forall call pos klo mlo scall, call_refines call klo mlo scall ->
+  forall XS sg body sg' out s u s' b,
+  J scall XS (Prog body) sg sg' out SN -> go_fix body s = TOk u s' -> frag2_all body = true -> env_ok sg -> ctx_ok XS sg b s ->
+  fresh_flags klo mlo XS s ->
   exists X b', b_code s' = b_code s ++ X /\ lruns call pos b [] X (b', out) /\ represents sg' b' s' XS.
 Proof. exact loops_preserved. Qed.
 Print Assumptions C01_loops_preserved.
